@@ -1,1 +1,429 @@
-/-! C11 — property theorems (placeholder until the model exists). -/
+import EupsModel.Lemmas.CondCorrect
+import EupsModel.Lemmas.CondLex
+import EupsModel.Model.CondPinned
+import EupsModel.Lemmas.TableBlocks
+import EupsModel.Lemmas.TableText
+import EupsModel.Lemmas.TableLegacy
+import EupsModel.Lemmas.TableLegacyOld
+import EupsModel.Lemmas.TableArgs
+import EupsModel.Lemmas.TableWritten
+/-! C11 — table files mean what they say.  Property theorems only: the specification side is in
+`Spec/C11.lean`, the models in `Model/{Cond,CondPinned,TableParse}.lean`, the lemmas in `Lemmas/Cond*.lean`. -/
+namespace EupsModel.C11
+open EupsModel.Cond EupsModel.C11Spec EupsModel.TableParse
+
+/-! ## conditions -/
+
+/-- **C11_cond.**  Every condition over `FLAVOR` and `TYPE` built from `==`, `!=`, `&&`, `||` and parentheses,
+written with any spelling of the keywords, any quoting of the words, redundant parentheses and blanks anywhere
+between tokens (`c : CExpr`, well-formed at the top level), evaluates — text in, truth value out, through the
+tokeniser, the symbol lookup and the recursive descent of `VersionParser` — to the value its truth table gives
+(`denote`), for every flavor that is not itself one of the evaluator's four special tokens and every list of
+setup types, with the fuel the driver uses (or more). -/
+theorem C11_cond (env : Env) (hfl : flavorOK env.flavor = true) (c : CExpr) (hok : c.okAt 0 = true)
+    (trail : Str) (ht : blank trail = true) (f : Nat) (hf : fuelFor (c.str ++ trail) ≤ f) :
+    evalCond env f (c.str ++ trail) = .ok (denote env c.abs) := by
+  have hl := toks_length_le c 0 hok
+  simp only [evalCond, tokenize_expr c hok trail ht]
+  apply evalToks_correct hfl c hok
+  simp only [fuelFor, List.length_append] at hf
+  omega
+
+theorem render_abs (e : BExpr) : ∀ p, (render p e).abs = e := by
+  induction e with
+  | atom v neg w => intro p; rfl
+  | and a b iha ihb =>
+    intro p; simp only [render]; split <;> simp [CExpr.abs, iha, ihb]
+  | or a b iha ihb =>
+    intro p; simp only [render]; split <;> simp [CExpr.abs, iha, ihb]
+
+theorem render_ok (e : BExpr) : e.wordsOK = true → ∀ p, (render p e).okAt p = true := by
+  induction e with
+  | atom v neg w =>
+    intro hw p
+    simp only [BExpr.wordsOK] at hw
+    cases v <;> simp [render, CExpr.okAt, Atom.ok, hw, Var.kw, blank, Str.isSpace] <;> decide
+  | and a b iha ihb =>
+    intro hw p
+    simp only [BExpr.wordsOK, Bool.and_eq_true] at hw
+    simp only [render]
+    split
+    · simp [CExpr.okAt, iha hw.1 1, ihb hw.2 2, blank, Str.isSpace]
+    · rename_i hp; simp [CExpr.okAt, iha hw.1 1, ihb hw.2 2, blank, Str.isSpace]; omega
+  | or a b iha ihb =>
+    intro hw p
+    simp only [BExpr.wordsOK, Bool.and_eq_true] at hw
+    simp only [render]
+    split
+    · simp [CExpr.okAt, iha hw.1 0, ihb hw.2 1, blank, Str.isSpace]
+    · rename_i hp; simp [CExpr.okAt, iha hw.1 0, ihb hw.2 1, blank, Str.isSpace]; omega
+
+/-- the same for the canonical text of an expression: `eval (tokenize (render e)) env = denote e env` -/
+theorem C11_cond_render (env : Env) (hfl : flavorOK env.flavor = true) (e : BExpr) (hw : e.wordsOK = true) :
+    evalCond env (fuelFor (render 0 e).str) (render 0 e).str = .ok (denote env e) := by
+  have := C11_cond env hfl (render 0 e) (render_ok e hw 0) [] rfl (fuelFor (render 0 e).str) (by simp)
+  simpa [render_abs] using this
+
+/-! ### non-vacuity -/
+
+/-- `( TYPE == build || flavor != 'Linux64' )&&Flavor=="Darwin"` is a well-formed written condition -/
+def sampleCond : CExpr :=
+  .and (.paren (.or (.atom ⟨Str.ofString "TYPE", .type, false, Str.ofString "build", none, [32], [32], [32]⟩)
+                    (.atom ⟨Str.ofString "flavor", .flavor, true, Str.ofString "Linux64", some 39, [32], [32], [32]⟩) [32]) [] [32])
+       (.atom ⟨Str.ofString "Flavor", .flavor, false, Str.ofString "Darwin", some 34, [], [], []⟩) []
+
+example : sampleCond.okAt 0 = true := by decide
+example : sampleCond.str = Str.ofString "( TYPE == build || flavor != 'Linux64' )&&Flavor==\"Darwin\"" := by decide
+example : flavorOK (Str.ofString "Darwin") = true := by decide
+example : evalCond ⟨Str.ofString "Darwin", []⟩ (fuelFor sampleCond.str) sampleCond.str = .ok true := by decide +kernel
+example : evalCond ⟨Str.ofString "Linux64", []⟩ (fuelFor sampleCond.str) sampleCond.str = .ok false := by decide +kernel
+
+/-! ### the evaluator as pinned (before the repair of D3) -/
+
+/-- `A && B || C` with `A` false and `C` true -/
+def d3Expr : BExpr :=
+  .or (.and (.atom .flavor false (Str.ofString "Darwin")) (.atom .type false (Str.ofString "build")))
+      (.atom .flavor false (Str.ofString "Linux"))
+def d3Env : Env := ⟨Str.ofString "Linux", [Str.ofString "build"]⟩
+
+/-- **C11_cond is false of the pinned evaluator (1).**  `FLAVOR == Darwin && TYPE == build || FLAVOR == Linux`
+for flavor Linux: the truth table says true; the pinned `_expr` does not consume `TYPE == build` after the false
+`FLAVOR == Darwin`, reads `TYPE` as an operator, stops, and returns false. -/
+theorem C11_shortcircuit_witness_1 :
+    (render 0 d3Expr).str = Str.ofString " FLAVOR == Darwin && TYPE == build || FLAVOR == Linux" ∧
+    d3Expr.wordsOK = true ∧ flavorOK d3Env.flavor = true ∧ denote d3Env d3Expr = true ∧
+    CondPinned.evalCond d3Env (fuelFor (render 0 d3Expr).str) (render 0 d3Expr).str = .ok false := by decide +kernel
+
+/-- the same expression with its redundant parentheses written out -/
+def d3Paren : CExpr :=
+  .or (.paren (.and (.atom ⟨Str.ofString "FLAVOR", .flavor, false, Str.ofString "Darwin", none, [], [32], [32]⟩)
+                    (.atom ⟨Str.ofString "TYPE", .type, false, Str.ofString "build", none, [32], [32], [32]⟩) [32]) [] [])
+      (.atom ⟨Str.ofString "FLAVOR", .flavor, false, Str.ofString "Linux", none, [32], [32], [32]⟩) [32]
+
+/-- **C11_cond is false of the pinned evaluator (2).**  `(FLAVOR == Darwin && TYPE == build) || FLAVOR == Linux`:
+inside the parentheses the same tokens are left over; `_prim` finds `TYPE` where it expects `)` and raises
+`RuntimeError` when no setup type is given, and when one is given the list bound to `TYPE` has been pushed back
+onto the token stream and `_lookup` fails on it with `AttributeError`. -/
+theorem C11_shortcircuit_witness_2 :
+    d3Paren.str = Str.ofString "(FLAVOR == Darwin && TYPE == build) || FLAVOR == Linux" ∧
+    d3Paren.okAt 0 = true ∧ denote d3Env d3Paren.abs = true ∧ denote { d3Env with types := [] } d3Paren.abs = true ∧
+    CondPinned.evalCond d3Env (fuelFor d3Paren.str) d3Paren.str = .err .attribute ∧
+    CondPinned.evalCond { d3Env with types := [] } (fuelFor d3Paren.str) d3Paren.str = .err .runtime := by
+  decide +kernel
+
+/-- the repaired evaluator on the two witnesses -/
+example : evalCond d3Env (fuelFor (render 0 d3Expr).str) (render 0 d3Expr).str = .ok true := by decide +kernel
+example : evalCond d3Env (fuelFor d3Paren.str) d3Paren.str = .ok true := by decide +kernel
+
+/-! ## block selection -/
+
+/-- **C11_blocks (on classified lines).**  For every table — single lines and if / else-if / else chains of any
+length, every branch holding any lines at all (commands, lines the reader skips, or nothing), conditions written
+in any form — the repaired block state machine of `Table._read`, run over the table's lines, followed by the
+branch selection of `Table.actions`, yields exactly what the table denotes: unconditional commands always, of
+each chain the first branch whose condition is true, else the else branch, in the order written.  "Classified"
+= each line is given as what the two patterns of `_read` make of it (`TableParse.classify`). -/
+theorem C11_blocks_lines (env : Env) (hfl : flavorOK env.flavor = true) (t : List TItem) (hok : t.all TItem.ok = true) :
+    actions repaired env (finish repaired (runL repaired {} (tableLines t))) = .ok (denoteTable env t) :=
+  blocks_lines hfl t hok
+
+/-- reading text lines is classifying them and running the state machine -/
+theorem readLines_classified (v : Variant) (pdir : Option Str) :
+    ∀ (lines : List Str) (ls : List Line) (st : RdState),
+      classifyAll v pdir lines = .ok ls → readLines v pdir st lines = .ok (runL v st ls) := by
+  intro lines
+  induction lines with
+  | nil => intro ls st h; simp only [classifyAll] at h; cases h; rfl
+  | cons l rest ih =>
+    intro ls st h
+    simp only [classifyAll] at h
+    cases hc : classify v pdir l with
+    | ok c =>
+      rw [hc] at h; simp only [Res.bind] at h
+      cases hr : classifyAll v pdir rest with
+      | ok cs =>
+        rw [hr] at h; simp only [Res.bind] at h; cases h
+        simp [readLines, readLine, hc, Res.bind, runL, ih cs _ hr]
+      | err e => rw [hr] at h; simp [Res.bind] at h
+      | fuel => rw [hr] at h; simp [Res.bind] at h
+    | err e => rw [hc] at h; simp [Res.bind] at h
+    | fuel => rw [hc] at h; simp [Res.bind] at h
+
+/-- **C11_blocks (text, given the classification of the lines).**  If `_rewrite` turns the text into `lines` and
+the patterns of `_read` classify these as the lines of table `t`, then
+`Table(text).actions(flavor, types)` is what `t` denotes. -/
+theorem C11_blocks (env : Env) (hfl : flavorOK env.flavor = true) (pdir : Option Str) (text : Str) (lines : List Str)
+    (t : List TItem) (hok : t.all TItem.ok = true) (hrw : rewrite text = .ok lines)
+    (hcl : classifyAll repaired pdir lines = .ok (tableLines t)) :
+    tableActions repaired pdir env text = .ok (denoteTable env t) := by
+  simp only [tableActions, parse, hrw, Res.bind, readLines_classified repaired pdir lines _ _ hcl]
+  exact blocks_lines hfl t hok
+
+/-- **C11_blocks (text).**  For every table *text* made of if / else-if / else chains written with any layout —
+indentation, spelling of `if`/`else` in any letter case, blanks around parentheses and braces, a trailing comment
+on any line of the block structure, conditions in any written form — around arbitrary other lines (each any text
+that, once stripped, is empty or is passed on by `_rewrite` and classified by the patterns of `_read` as the action
+it stands for, or as nothing), with or without a final newline:
+`Table(text, product).actions(flavor, types)` is what the table denotes. -/
+theorem C11_blocks_text (env : Env) (hfl : flavorOK env.flavor = true) (pdir : Option Str) (t : List TItemT)
+    (hok : t.all (TItemT.ok pdir) = true) (nl : Bool) :
+    tableActions repaired pdir env (tableText t nl) = .ok (denoteTable env (tableAbs t)) := by
+  obtain ⟨lines, hrw, hcl⟩ := rewrite_table t hok nl
+  exact C11_blocks env hfl pdir _ lines _ (tableAbs_ok t hok) hrw hcl
+
+/-! ### non-vacuity of `C11_blocks_text` -/
+
+def envLinux : Env := ⟨Str.ofString "Linux", [Str.ofString "build"]⟩
+def actA : Action := ⟨Str.ofString "envSet", [Str.ofString "A", Str.ofString "1"], .none⟩
+def actB : Action := ⟨Str.ofString "envSet", [Str.ofString "B", Str.ofString "x y"], .none⟩
+def condBuild : CExpr := .atom ⟨Str.ofString "TYPE", .type, false, Str.ofString "build", none, [], [32], [32]⟩
+
+/-- a table text with layout: upper-case `IF`, `Else if`, `}else{`, comments after block lines, an empty branch,
+an unknown command, a quoted argument -/
+def sampleTable : List TItemT :=
+  [ .line ⟨Str.ofString "# a table", none⟩,
+    .chain
+      ⟨⟨Str.ofString "  ", Str.ofString "# only there"⟩, ⟨Str.ofString "IF", [32], [32], [32, 32, 32]⟩,
+        .atom ⟨Str.ofString "FLAVOR", .flavor, false, Str.ofString "Linux", none, [32], [32], [32]⟩, [32],
+        [⟨Str.ofString "\tenvSet(A, 1)", some actA⟩]⟩
+      [(⟨[32], Str.ofString "Else", [32]⟩, ⟨⟨Str.ofString "  ", []⟩, ⟨Str.ofString "if", [32], [], []⟩, condBuild, [], []⟩)]
+      (some ⟨⟨Str.ofString "  ", Str.ofString "# otherwise"⟩, ⟨[], Str.ofString "else", []⟩, [32],
+        [⟨Str.ofString "      frobnicate(x)", none⟩, ⟨Str.ofString "      envSet(B, \"x y\")  # comment", some actB⟩]⟩)
+      ⟨Str.ofString "  ", []⟩ [] ]
+
+example : tableText sampleTable true = Str.ofString
+    "# a table\n  IF ( FLAVOR == Linux ) {   # only there\n\tenvSet(A, 1)\n  } Else if (TYPE == build){\n  }else{ # otherwise\n      frobnicate(x)\n      envSet(B, \"x y\")  # comment\n  }\n" := by
+  decide +kernel
+example : sampleTable.all (TItemT.ok none) = true := by decide +kernel
+example : denoteTable envLinux (tableAbs sampleTable) = [actA] ∧
+    denoteTable ⟨Str.ofString "Darwin", [Str.ofString "build"]⟩ (tableAbs sampleTable) = [] ∧
+    denoteTable ⟨Str.ofString "Darwin", []⟩ (tableAbs sampleTable) = [actB] := by decide +kernel
+
+/-! ### non-vacuity and the reader as pinned (before the repairs of D4, D31) -/
+
+def condLinux : CExpr := .atom ⟨Str.ofString "FLAVOR", .flavor, false, Str.ofString "Linux", none, [], [32], [32]⟩
+/-- `if (FLAVOR == Linux) { } else { envSet(A, 1) }` — the shape `expandTableFile` writes for an empty exact block -/
+def emptyIfTable : List TItem := [.chain ⟨condLinux, [], []⟩ [] (some [some actA]) true]
+def emptyIfText : Str := Str.ofString "if (FLAVOR == Linux) {\n} else {  # otherwise\n  envSet(A, 1)\n}\n"
+/-- the tree with every repair except that of D4 -/
+def onlyD4Pinned : Variant := { repaired with d4 := false }
+
+example : emptyIfTable.all TItem.ok = true := by decide
+example : denoteTable envLinux emptyIfTable = [] := by decide
+/-- the hypotheses of `C11_blocks` hold for the text above -/
+example : rewrite emptyIfText = .ok [Str.ofString "if (FLAVOR == Linux) {", Str.ofString "} else {  ",
+      Str.ofString "envSet(A, 1)", Str.ofString "}"] ∧
+    classifyAll repaired none [Str.ofString "if (FLAVOR == Linux) {", Str.ofString "} else {  ",
+      Str.ofString "envSet(A, 1)", Str.ofString "}"] = .ok (tableLines emptyIfTable) := by decide +kernel
+example : tableActions repaired none envLinux emptyIfText = .ok [] := by decide +kernel
+
+/-- **C11_blocks is false of the block state machine as pinned (D4).**  A chain with a branch that holds no
+command: for flavor Linux the table denotes nothing, the pinned reader applies the else branch — on the classified
+lines and on the text. -/
+theorem C11_empty_branch_witness :
+    emptyIfTable.all TItem.ok = true ∧ denoteTable envLinux emptyIfTable = [] ∧
+    actions onlyD4Pinned envLinux (finish onlyD4Pinned (runL onlyD4Pinned {} (tableLines emptyIfTable))) = .ok [actA] ∧
+    tableActions onlyD4Pinned none envLinux emptyIfText = .ok [actA] := by decide +kernel
+
+/-- **D31 as pinned.**  Blanks (what is left of a trailing comment) after the `{` of `} else {`: the pinned
+pattern does not match the line, which is then skipped as unrecognised, so the else block runs under the if condition:\nfor Darwin nothing is applied, for Linux the else branch. -/
+theorem C11_else_trailing_blank_witness :
+    blockLine { repaired with d31 := false } (Str.ofString "} else {  ") = none ∧
+    blockLine repaired (Str.ofString "} else {  ") = some (.elseOpen true) ∧
+    tableActions { repaired with d31 := false } none ⟨Str.ofString "Darwin", []⟩ emptyIfText = .ok [] ∧
+    tableActions { repaired with d31 := false } none envLinux emptyIfText = .ok [actA] ∧
+    tableActions repaired none ⟨Str.ofString "Darwin", []⟩ emptyIfText = .ok [actA] ∧
+    tableActions repaired none envLinux emptyIfText = .ok [] := by decide +kernel
+
+/-! ## legacy groups -/
+
+/-- **C11_legacy_groups (runs of `Flavor=` lines).**  For every table text made of lines outside any group
+followed by groups — each one or more `Flavor = f` lines (keyword in any letter case, blanks around `=`,
+indentation, trailing comments) and then the lines up to the next group — `_rewrite` produces exactly the lines
+of the same table with every group written as `if (FLAVOR == f1 || FLAVOR == f2 …) {` … `}`; hence, whatever the
+reader variant, the product and the environment, `Table.actions` gives the same result for the legacy text and
+for its `if` form. -/
+theorem C11_legacy_groups (pre : List Str) (gs : List FGroup) (nl : Bool) (hpre : pre.all passesLine = true)
+    (hgs : gs.all FGroup.ok = true) :
+    rewrite (legacyText pre gs nl) = rewrite (legacyAsIfText pre gs nl) ∧
+    ∀ (v : Variant) (pdir : Option Str) (env : Env),
+      tableActions v pdir env (legacyText pre gs nl) = tableActions v pdir env (legacyAsIfText pre gs nl) := by
+  have h : rewrite (legacyText pre gs nl) = rewrite (legacyAsIfText pre gs nl) := by
+    rw [rewrite_legacy pre gs nl hpre hgs, rewrite_asIf pre gs nl hpre hgs]
+  exact ⟨h, fun v pdir env => by simp only [tableActions, parse, h]⟩
+
+/-! ### non-vacuity -/
+
+def legacyPre : List Str := [Str.ofString "envSet(A, 1)  # always"]
+def legacyGroups : List FGroup :=
+  [ ⟨⟨⟨[], []⟩, Str.ofString "Flavor", [32], [32], Str.ofString "Linux", []⟩,
+     [⟨⟨[32], Str.ofString "# too"⟩, Str.ofString "FLAVOR", [], [], Str.ofString "Linux64", [32]⟩],
+     Str.ofString "  envSet(B, 2)", [Str.ofString "# c", Str.ofString "  envSet(C, 3)"]⟩,
+    ⟨⟨⟨[], []⟩, Str.ofString "flavor", [32], [], Str.ofString "Darwin", []⟩, [], Str.ofString "envSet(B, 4)", []⟩ ]
+
+example : legacyPre.all passesLine = true ∧ legacyGroups.all FGroup.ok = true := by decide +kernel
+example : legacyText legacyPre legacyGroups true = Str.ofString
+    "envSet(A, 1)  # always\nFlavor = Linux\n FLAVOR=Linux64 # too\n  envSet(B, 2)\n# c\n  envSet(C, 3)\nflavor =Darwin\nenvSet(B, 4)\n" := by
+  decide +kernel
+example : legacyAsIfText legacyPre legacyGroups true = Str.ofString
+    "envSet(A, 1)  # always\nif (FLAVOR == Linux || FLAVOR == Linux64) {\nenvSet(B, 2)\nenvSet(C, 3)\n}\nif (FLAVOR == Darwin) {\nenvSet(B, 4)\n}\n" := by
+  decide +kernel
+
+/-- **C11_legacy_groups_old (`Group:` … `End:`).**  For every old-style table text — an optional header
+`File = Table` / `Product = …`, lines outside any group, then groups `Group:` / one or more `Flavor = f` (`ANY`
+included) / optionally `Qualifiers = "…"` / `Common:` / optionally `Action = setup` / the lines of the group /
+`End:`, keywords in any letter case, with blanks, indentation and trailing comments — `_rewrite` produces exactly
+the lines of the table with every group written as `if (FLAVOR == f1 || …) {` … `}` (and no header); hence the same
+`Table.actions` for both texts. -/
+theorem C11_legacy_groups_old (h : Option OHeader) (pre : List Str) (gs : List OGroup) (nl : Bool)
+    (hh : ∀ x, h = some x → x.ok = true) (hpre : pre.all passesLine = true) (hgs : gs.all OGroup.ok = true) :
+    rewrite (oldLegacyText h pre gs nl) = rewrite (oldLegacyAsIfText pre gs nl) ∧
+    ∀ (v : Variant) (pdir : Option Str) (env : Env),
+      tableActions v pdir env (oldLegacyText h pre gs nl) = tableActions v pdir env (oldLegacyAsIfText pre gs nl) := by
+  have e : rewrite (oldLegacyText h pre gs nl) = rewrite (oldLegacyAsIfText pre gs nl) := by
+    rw [rewrite_old_legacy h pre gs nl hh hpre hgs, rewrite_old_asIf pre gs nl hpre hgs]
+  exact ⟨e, fun v pdir env => by simp only [tableActions, parse, e]⟩
+
+def oldHeader : OHeader :=
+  ⟨⟨⟨[], []⟩, Str.ofString "FILE", [], [], Str.ofString "table", []⟩,
+   ⟨⟨[], []⟩, Str.ofString "Product", [32], [32], Str.ofString "foo", []⟩⟩
+def oldGroups : List OGroup :=
+  [ { group := ⟨⟨[], []⟩, Str.ofString "Group:", []⟩,
+      f := ⟨⟨[32, 32], []⟩, Str.ofString "Flavor", [32], [32], Str.ofString "Linux", []⟩,
+      more := [⟨⟨[32, 32], []⟩, Str.ofString "FLAVOR", [], [], Str.ofString "ANY", []⟩],
+      qual := some ⟨⟨[32, 32], []⟩, Str.ofString "Qualifiers", [32], [32], Str.ofString "\"\"", []⟩,
+      common := ⟨⟨[], []⟩, Str.ofString "COMMON:", [32]⟩,
+      action := some ⟨⟨[32, 32], []⟩, Str.ofString "Action", [32], [32], Str.ofString "Setup", []⟩,
+      body := [Str.ofString "    envSet(B, 2)  # two"],
+      end_ := ⟨⟨[], []⟩, Str.ofString "End:", []⟩,
+      after := [Str.ofString "print(bye)"] } ]
+
+example : oldHeader.ok = true ∧ oldGroups.all OGroup.ok = true := by decide +kernel
+example : oldLegacyText (some oldHeader) [Str.ofString "envSet(A, 1)"] oldGroups true = Str.ofString
+    "FILE=table\nProduct = foo\nenvSet(A, 1)\nGroup:\n  Flavor = Linux\n  FLAVOR=ANY\n  Qualifiers = \"\"\nCOMMON: \n  Action = Setup\n    envSet(B, 2)  # two\nEnd:\nprint(bye)\n" := by
+  decide +kernel
+example : oldLegacyAsIfText [Str.ofString "envSet(A, 1)"] oldGroups true = Str.ofString
+    "envSet(A, 1)\nif (FLAVOR == Linux || FLAVOR =~ .*) {\nenvSet(B, 2)  \n}\nprint(bye)\n" := by
+  decide +kernel
+
+/-! ## arguments -/
+
+/-- **C11_args.**  An argument list as written — unquoted arguments (no blank, comma, quote) and quoted ones
+(anything inside: blanks, commas, `\"` for a double quote, nothing at all), separated by any mix of blanks and
+commas, padded with blanks or not — is tokenised into exactly the arguments written, in order; except when the
+whole list is one quoted string without a quote inside (the classic spelling of a word list, `C11_args_whole_list`).
+Outside the theorem: arguments containing a backslash or one of the characters `\x01`–`\x03`, which the
+tokeniser uses for protection. -/
+theorem C11_args (pad1 pad2 : Str) (first : WArg) (rest : List (Str × WArg)) (h1 : padOK pad1 = true)
+    (h2 : padOK pad2 = true) (hf : first.ok = true) (hr : ∀ p ∈ rest, sepOK p.1 = true ∧ p.2.ok = true)
+    (hw : wholeQuoted pad1 first rest pad2 = false) :
+    parseArgs repaired (argsText pad1 first rest pad2) = first.val :: rest.map (·.2.val) :=
+  parseArgs_written h1 h2 hf hr hw
+
+/-- the classic spelling `setupRequired("foo -j 1.2")`: one pair of quotes around the list denotes its words -/
+theorem C11_args_whole_list (v : Str) (hq : quotedVal v = true) (h34 : v.contains 34 = false) :
+    parseArgs repaired (argsText [] ⟨v, true⟩ [] []) = splitArgs [] v := by
+  have h34' : 34 ∉ v := fun m => by rw [List.contains_iff_mem.mpr m] at h34; cases h34
+  have hv : ∀ c ∈ v, c ≠ 92 ∧ c ≠ 1 ∧ c ≠ 2 ∧ c ≠ 3 := by
+    intro c m
+    have := List.all_eq_true.mp hq c m
+    simpa [Bool.and_eq_true, and_assoc] using this
+  have : argsText [] ⟨v, true⟩ [] [] = 34 :: v ++ [34] := by simp [argsText, WArg.text, escQ_noquote h34']
+  rw [this]
+  exact parseArgs_whole h34' hv
+
+/-- a command as written — name in any letter case, blanks before `(`, an optional `;` and blanks after `)` — is
+the command its lower-cased name stands for, applied to the tokenised argument text -/
+theorem C11_command_line (pdir : Option Str) (name gap argText tl : Str) (cmd : Cmd) (hne : name ≠ [])
+    (hn : name.all isWordCh = true) (hg : blank gap = true) (ht : cmdTail tl = true) (h41 : 41 ∉ tl)
+    (hc : cmdTable.lookup (Str.lower name) = some cmd) :
+    commandLine repaired pdir (name ++ gap ++ [40] ++ argText ++ [41] ++ tl) =
+      normalise pdir cmd (parseArgs repaired argText) := by
+  unfold commandLine
+  rw [cmdLine_written hne hn hg ht h41]
+  simp only [hc]
+
+/-- append / prepend and required / optional are told apart, and `envSet` joins its value -/
+theorem C11_command_kinds (pdir : Option Str) (args : List Str) :
+    normalise pdir .setupRequired args = .act ⟨Cmd.setupRequired.name, dropF args, .optional false⟩ ∧
+    normalise pdir .setupOptional args = .act ⟨Cmd.setupRequired.name, dropF args, .optional true⟩ ∧
+    normalise pdir .unsetupRequired args = .act ⟨Cmd.unsetupRequired.name, dropF args, .optional false⟩ ∧
+    normalise pdir .unsetupOptional args = .act ⟨Cmd.unsetupRequired.name, dropF args, .optional true⟩ ∧
+    ((args.length = 2 ∨ args.length = 3) →
+      normalise pdir .envPrepend args = .act ⟨Cmd.envPrepend.name, dropF args, .append false⟩ ∧
+      normalise pdir .envAppend args = .act ⟨Cmd.envPrepend.name, dropF args, .append true⟩) ∧
+    (∀ a b rest, args = a :: b :: rest →
+      normalise pdir .envSet args = .act ⟨Cmd.envSet.name, dropF [a, joinSp (b :: rest)], .none⟩) := by
+  refine ⟨rfl, rfl, rfl, rfl, ?_, ?_⟩
+  · intro h
+    rcases h with h | h <;> simp [normalise, h]
+  · intro a b rest h; subst h; rfl
+
+/-- **C11_written_command.**  A command line as written — indentation, the command word in any letter case, blanks
+before `(`, a written argument list (`C11_args`), `)`, an optional `;`, blanks, a trailing comment — whose
+arguments hold no `#` and none of the seven old variable names `_rewrite` replaces, is one of the lines
+`C11_blocks_text` quantifies over, standing for the action that its command and the arguments written denote
+(`normalise`: aliases, append/prepend, required/optional, `envSet` join, `-f` removal), or for nothing when the
+reader skips that command by design.  Together with `C11_blocks_text`: a table text made of such command lines
+and of chains in any layout yields, for every flavor and list of setup types, exactly the actions written. -/
+theorem C11_written_command (pdir : Option Str) (c : WCmd) (hok : c.ok = true) (hd : (c.denote pdir).isSome = true) :
+    (c.line pdir).ok pdir = true := by
+  cases h : c.denote pdir with
+  | none => rw [h] at hd; cases hd
+  | some res =>
+    have := wcmd_body hok h
+    simpa [WCmd.line, h] using this
+
+/-! ### non-vacuity -/
+
+/-- `\tENVAPPEND (PATH, "${PRODUCT_DIR}/my bin", ;) ;  # c` -/
+def sampleCmd : WCmd :=
+  { wrap := ⟨[9], Str.ofString "# c"⟩, name := Str.ofString "ENVAPPEND", cmd := .envAppend, gap := [32],
+    args := .some [] ⟨Str.ofString "PATH", false⟩
+      [(Str.ofString ", ", ⟨Str.ofString "${PRODUCT_DIR}/my bin", true⟩), (Str.ofString ", ", ⟨[59], false⟩)] [],
+    tl := Str.ofString " ;  " }
+
+example : sampleCmd.raw = Str.ofString "\tENVAPPEND (PATH, \"${PRODUCT_DIR}/my bin\", ;) ;  # c" := by decide +kernel
+example : sampleCmd.ok = true := by decide +kernel
+example : sampleCmd.denote none = some (some ⟨Str.ofString "envPrepend",
+    [Str.ofString "PATH", Str.ofString "${PRODUCT_DIR}/my bin", [59]], .append true⟩) := by decide +kernel
+
+/-- ` PATH , "a b, c" ,"say \"hi\"" "" x ` -/
+example : argsText [32] ⟨Str.ofString "PATH", false⟩
+      [(Str.ofString " , ", ⟨Str.ofString "a b, c", true⟩), (Str.ofString " ,", ⟨Str.ofString "say \"hi\"", true⟩),
+       ([32], ⟨[], true⟩), ([32], ⟨Str.ofString "x", false⟩)] [32]
+    = Str.ofString " PATH , \"a b, c\" ,\"say \\\"hi\\\"\" \"\" x " := by decide +kernel
+example : (⟨Str.ofString "a b, c", true⟩ : WArg).ok = true ∧ (⟨[], true⟩ : WArg).ok = true ∧
+    (⟨Str.ofString "PATH", false⟩ : WArg).ok = true ∧ sepOK (Str.ofString " , ") = true := by decide +kernel
+example : parseArgs repaired (Str.ofString " PATH , \"a b, c\" ,\"say \\\"hi\\\"\" \"\" x ")
+    = [Str.ofString "PATH", Str.ofString "a b, c", Str.ofString "say \"hi\"", [], Str.ofString "x"] := by decide +kernel
+example : commandLine repaired none (Str.ofString "ENVAPPEND (PATH, \"a b\") ; ")
+    = .act ⟨Str.ofString "envPrepend", [Str.ofString "PATH", Str.ofString "a b"], .append true⟩ := by decide +kernel
+
+/-! ### the argument tokeniser as pinned (before the repairs of D20, D32, D33) -/
+
+/-- **D20 as pinned.**  `print("1.2", "-j a")`: the pinned tokeniser strips the first and the last quote of the
+argument text as if they were one pair; the repaired one keeps the two arguments written. -/
+theorem C11_args_quote_pair_witness :
+    parseArgs { repaired with d20 := false } (Str.ofString "\"1.2\", \"-j a\"") =
+      [Str.ofString "1.2\", \"-j", Str.ofString "a"] ∧
+    parseArgs repaired (Str.ofString "\"1.2\", \"-j a\"") = [Str.ofString "1.2", Str.ofString "-j a"] ∧
+    parseArgs repaired (Str.ofString "\"foo -j 1.2\"") = [Str.ofString "foo", Str.ofString "-j", Str.ofString "1.2"] := by
+  decide +kernel
+
+/-- **D32 as pinned.**  The special case `,\s*"(\s)"` fires on the comma *inside* the first argument of
+`print("a, " "b")` (it takes the closing quote, the blank and the next opening quote for `" "`). -/
+theorem C11_args_comma_blank_witness :
+    parseArgs { repaired with d32 := false } (Str.ofString "\"a, \" \"b\"") = [Str.ofString "a \" \"b"] ∧
+    parseArgs repaired (Str.ofString "\"a, \" \"b\"") = [Str.ofString "a, ", Str.ofString "b"] := by
+  decide +kernel
+
+/-- **D33 as pinned.**  `"[^"]+"` cannot match the empty argument of `print("", "a b")`; its closing quote pairs
+with the next opening quote and the separator is protected instead of the blank inside `"a b"`. -/
+theorem C11_args_empty_quoted_witness :
+    parseArgs { repaired with d33 := false } (Str.ofString "\"\", \"a b\"")
+      = [Str.ofString "\"\", \"a", Str.ofString "b\""] ∧
+    parseArgs repaired (Str.ofString "\"\", \"a b\"") = [[], Str.ofString "a b"] := by
+  decide +kernel
+
+end EupsModel.C11
